@@ -633,3 +633,119 @@ def spec_classes(spec):
 
 def strip_meta(spec):
     return {k: v for k, v in spec.items() if not k.startswith("_")}
+
+
+# ---------------------------------------------------------------------------------------
+# expression specs (C04)
+# ---------------------------------------------------------------------------------------
+
+
+def _facet_cell(cell):
+    return {"triangle": "interval", "quadrilateral": "interval", "tetrahedron": "triangle", "hexahedron": "quadrilateral"}[cell]
+
+
+def _ref_vertices(cell):
+    import basix
+
+    return np.asarray(basix.geometry(getattr(basix.CellType, cell)))
+
+
+@st.composite
+def reference_points(draw, cell, npts, asymmetric=True):
+    """Interior points of a reference cell, rounded to 3 decimals, pairwise distinct and in general position."""
+    V = _ref_vertices(cell)
+    pts = []
+    for k in range(npts):
+        lam = [draw(st.integers(1, 9)) + 0.37 * (k + 1) + 0.11 * j * (k + 2) for j in range(V.shape[0])]
+        lam = np.array(lam) / sum(lam)
+        pts.append(np.round(lam @ V, 3).tolist())
+    return pts
+
+
+@st.composite
+def expr_specs(draw, profile=None):
+    pr = dict(DEFAULT_PROFILE)
+    pr.update({"depth": 2, "maxdeg": 2})
+    pr.update(profile or {})
+    cell = draw(st.sampled_from([c for c in pr["cells"] if c != "prism"]))
+    tdim = TDIM[cell]
+    gdim = tdim + 1 if (tdim < 3 and draw(st.floats(0, 1)) < pr["manifold"]) else tdim
+    cdeg = 2 if draw(st.floats(0, 1)) < pr["nonaffine"] else 1
+    facet = tdim >= 2 and draw(st.floats(0, 1)) < pr.get("p_facet", 0.35)
+    m = "ds" if facet else "dx"
+    maxdeg = min(pr["maxdeg"], 2 if tdim == 3 else 3)
+    pool = element_pool(cell, gdim, maxdeg=maxdeg, rich=True)
+    pool = [(t, E) for t, E in pool if t not in ("real",)]
+    elements, tags = [], []
+
+    def new_element():
+        tag, E = draw(st.sampled_from(pool))
+        if E in elements:
+            return elements.index(E)
+        elements.append(E)
+        tags.append(tag)
+        return len(elements) - 1
+
+    has_arg = draw(st.floats(0, 1)) < pr.get("p_argument", 0.4)
+    args = [new_element()] if has_arg else []
+    coefs = [new_element() for _ in range(draw(st.integers(0 if has_arg else 1, 3)))]
+    const_shapes = [[], [], [gdim], [gdim, gdim], [2], [2, 3]]
+    consts = [draw(st.sampled_from(const_shapes)) for _ in range(draw(st.integers(0, 3)))]
+    spec = {"kind": "expr", "cell": cell, "gdim": gdim, "cdeg": cdeg, "elements": elements, "args": args, "coefs": coefs,
+            "consts": consts}
+    g = G(draw, spec, pr)
+    kinds = ["tensor", "gradscalar"]
+    if coefs:
+        kinds += ["Lf", "Lf"]
+    if has_arg:
+        kinds = ["argK", "argK", "argK"]
+    if len(consts) >= 2 and coefs and not has_arg:
+        kinds += ["mixdrop", "mixdrop"]
+    kind = draw(st.sampled_from(kinds))
+    g.features.add("exprkind:" + kind)
+    if kind == "Lf":
+        k = g.int(0, len(coefs) - 1)
+        e = gen_linear(g, ["f", k], elements[coefs[k]], m, allow_restrict=False)
+        if g.chance(0.5):
+            e = ["mul", gen_scalar(g, m, 1), e]
+    elif kind == "tensor":
+        shape = draw(st.sampled_from([(), (2,), (3,), (2, 2), (2, 3)]))
+        e = gen_tensor(g, m, shape, pr["depth"])
+    elif kind == "gradscalar":
+        # the x term guarantees that the operand has a domain (grad of a bare literal is not defined by UFL)
+        e = ["grad", ["add", gen_scalar(g, m, pr["depth"]), ["idx", ["geo", "x"], 0]]]
+    elif kind == "argK":
+        e = gen_linear(g, ["v"], elements[args[0]], m, allow_restrict=False)
+        if g.chance(0.7):
+            e = ["mul", gen_scalar(g, m, 1), e]
+    else:  # mixdrop: constants that differentiation removes
+        i, j = 0, 1
+        k = g.int(0, len(coefs) - 1)
+        fs = to_scalar(g, gen_linear(g, ["f", k], elements[coefs[k]], m, allow_restrict=False, maxderiv=0))
+        e = ["grad", ["add", to_scalar(g, ["c", i]), ["mul", to_scalar(g, ["c", j]), ["mul", ["idx", ["geo", "x"], 0], fs]]]]
+    # keep the value rank moderate
+    if len(g.shape(e)) > 3:
+        e = to_scalar(g, e)
+    spec["e"] = e
+    npts = draw(st.integers(1, 4))
+    pcell = _facet_cell(cell) if facet else cell
+    mode = draw(st.sampled_from(["interior", "interior", "vertices"]))
+    if mode == "vertices" and not facet:
+        spec["points"] = _ref_vertices(pcell).tolist()
+    else:
+        spec["points"] = draw(reference_points(pcell, npts))
+    spec["facet"] = bool(facet)
+    spec["_tags"] = sorted(set(tags))
+    spec["_features"] = sorted(g.features)
+    spec["data_seed"] = draw(st.integers(0, 2**31 - 1))
+    return spec
+
+
+def expr_classes(spec):
+    out = [f"cell:{spec['cell']}", f"cdeg:{spec['cdeg']}", "facet-points" if spec.get("facet") else "cell-points",
+           f"rank:{len(spec['args'])}", f"npoints:{min(len(spec['points']), 5)}"]
+    out += [f"elem:{t}" for t in spec.get("_tags", [])]
+    for f in spec.get("_features", []):
+        if f.startswith(("exprkind:", "fun:", "geo:", "L:", "op:")) or f == "split":
+            out.append(f)
+    return out
